@@ -195,7 +195,7 @@ func Sum(h crypto.Hash, msg []byte) []byte {
 
 // ---- partially blind RSA (draft-amjad-cfrg-partially-blind-rsa) ----
 
-func hkdf(newHash func() hash.Hash, ikm, salt, info []byte, n int) []byte {
+func HKDF(newHash func() hash.Hash, ikm, salt, info []byte, n int) []byte {
 	ext := hmac.New(newHash, salt)
 	ext.Write(ikm)
 	prk := ext.Sum(nil)
@@ -228,7 +228,7 @@ func DeriveExponent(h crypto.Hash, n *big.Int, info []byte) (*big.Int, error) {
 	modLen := n.BitLen() / 8
 	lambdaLen := modLen / 2
 	ikm := append(append([]byte("key"), info...), 0)
-	exp := hkdf(h.New, ikm, I2OSP(n, modLen), []byte("PBRSA"), lambdaLen+16)
+	exp := HKDF(h.New, ikm, I2OSP(n, modLen), []byte("PBRSA"), lambdaLen+16)
 	exp[0] &= 0x3f
 	exp[lambdaLen-1] |= 1
 	return new(big.Int).SetBytes(exp[:lambdaLen]), nil
